@@ -230,6 +230,7 @@ func checkC14(p *Program, r *Reporter) {
 	buildFieldFacts(p, r, map[string]bool{"app.SegStatusCodes.Cycle": true, "app.SegStatusCodes.Rsq": true, "app.SegStatusCodes.Code": true})
 	if sa := p.mustFunc(r, pkgApp, "LossItvls.StateAt"); sa != nil {
 		wholeSecondRule(p, r, sa)
+		halfOpenRule(p, r, sa)
 	}
 	// (d) dependences in calcStatusCode
 	csc := p.mustFunc(r, pkgApp, "calcStatusCode")
